@@ -82,7 +82,13 @@ def build_skeleton_tagfile(rng, bones, poses, extra=True):
 
     # optional unused types in front
     if extra and rng.random() < 0.7:
-        T("hkUnusedThing", None, [("someInt", T_INT, None), ("someTuple", TUPLE | T_REAL, None, 3), ("someVec", T_VEC4, None), ("bytes", ARRAY | T_BYTE, None)], version=rng.choice([0, 1, 300]))
+        unused = [("someInt", T_INT, None), ("someTuple", TUPLE | T_REAL, None, 3), ("someVec", T_VEC4, None), ("bytes", ARRAY | T_BYTE, None)]
+        if rng.random() < 0.6:
+            # members that carry both a tuple size and a class name (merely declared, no object uses them)
+            unused += [("objPair", TUPLE | T_OBJECT, "hkReferencedObject", 2), ("frames", TUPLE | T_STRUCT, "hkUnusedFrame", rng.choice([1, 4, 200])), ("objs", ARRAY | T_OBJECT, "hkBaseObject"),
+                       ("vecs", TUPLE | T_VEC16, None, 3), ("names", TUPLE | T_STRING, None, 2)]
+            rng.shuffle(unused)
+        T("hkUnusedThing", None, unused, version=rng.choice([0, 1, 300]))
     T("hkBaseObject", None, [])
     two = bool(extra and rng.random() < 0.5)
     T("hkReferencedObject", "hkBaseObject", [("memSizeAndFlags", T_INT, None), ("referenceCount", T_INT, None)] if two else [("memSizeAndFlags", T_INT, None)])
@@ -102,6 +108,13 @@ def build_skeleton_tagfile(rng, bones, poses, extra=True):
         T("hkLocalFrame", "hkReferencedObject", [])
     skel_members = [("name", T_STRING, None), ("parentIndices", ARRAY | T_INT, None), ("bones", ARRAY | T_STRUCT, "hkaBone"), ("referencePose", ARRAY | T_VEC12, None),
                     ("referenceFloats", ARRAY | T_REAL, None), ("floatSlots", ARRAY | T_STRING, None)]
+    never = set()
+    if extra and rng.random() < 0.5:
+        # declared members of the used class that no object carries (their presence bit is always clear)
+        more = [("localFrames", ARRAY | T_STRUCT, "hkaSkeletonLocalFrameOnBone"), ("partitionPair", TUPLE | T_OBJECT, "hkReferencedObject", 2), ("frameTuple", TUPLE | T_STRUCT, "hkaBone", 3)]
+        more = rng.sample(more, rng.randint(1, 3))
+        never = {x[0] for x in more}
+        skel_members += more
     if extra and rng.random() < 0.5:
         rng.shuffle(skel_members)
     T("hkaSkeleton", "hkReferencedObject", skel_members)
@@ -141,7 +154,7 @@ def build_skeleton_tagfile(rng, bones, poses, extra=True):
     present = [rng.random() < 0.5 for _ in range(nref)]
     sorder = [m[0] for m in skel_members]
     needed = {"parentIndices", "bones", "referencePose"}
-    flags = list(present) + [(m in needed) or (extra and rng.random() < 0.4) for m in sorder]
+    flags = list(present) + [(m in needed) or (m not in never and extra and rng.random() < 0.4) for m in sorder]
     w.bits(flags)
     for p in present:
         if p:
